@@ -400,6 +400,9 @@ func (r *travRun) enumerate() []*travUnit {
 			u.soleReturn = travSoleReturnC(p.TypesInfo, fd.Body.List)
 			if role == rolePredicate && !r.isNodeInterfaceMethod(fd.Name.Name) {
 				u.shapeTest = travShapeTest(p.TypesInfo, fd)
+				if u.shapeTest == "" {
+					u.shapeTest = travAccessor(p.TypesInfo, fd)
+				}
 			}
 			units = append(units, u)
 		}
@@ -855,6 +858,51 @@ func travShapeTest(info *types.Info, fd *ast.FuncDecl) string {
 		return exprStr(rs.Results[0])
 	}
 	return ""
+}
+
+// travAccessor: a method that computes its answer from the receiver's own fields without ever
+// looking into a child: it calls nothing (only len/cap and conversions), asserts no dynamic type,
+// has no loop and no function literal, and reads at least one field of the receiver
+// (IsCompound(): `if self.Operator == Std { return false }; return true`). Such a method cannot
+// visit children — inspecting an expression / statement / block needs a call or a type
+// assertion — so it is an accessor of the node, not a traversal of it. Returns a witness, or "".
+func travAccessor(info *types.Info, fd *ast.FuncDecl) string {
+	if fd.Body == nil || fd.Recv == nil || len(fd.Recv.List) == 0 || len(fd.Recv.List[0].Names) == 0 {
+		return ""
+	}
+	recv := info.Defs[fd.Recv.List[0].Names[0]]
+	if recv == nil {
+		return ""
+	}
+	ok := true
+	fields := map[string]bool{}
+	ast.Inspect(fd.Body, func(n ast.Node) bool {
+		switch x := n.(type) {
+		case *ast.CallExpr:
+			if tv, isT := info.Types[x.Fun]; isT && tv.IsType() {
+				return true
+			}
+			if id, isId := ast.Unparen(x.Fun).(*ast.Ident); isId {
+				if b, isB := info.Uses[id].(*types.Builtin); isB && (b.Name() == "len" || b.Name() == "cap") {
+					return true
+				}
+			}
+			ok = false
+		case *ast.TypeAssertExpr, *ast.TypeSwitchStmt, *ast.ForStmt, *ast.RangeStmt, *ast.FuncLit, *ast.GoStmt, *ast.DeferStmt:
+			ok = false
+		case *ast.SelectorExpr:
+			if sel := info.Selections[x]; sel != nil && sel.Kind() == types.FieldVal {
+				if id, isId := ast.Unparen(x.X).(*ast.Ident); isId && info.Uses[id] == recv {
+					fields[x.Sel.Name] = true
+				}
+			}
+		}
+		return ok
+	})
+	if !ok || len(fields) == 0 {
+		return ""
+	}
+	return "a computation over its own fields " + travSortedKeys(fields) + " that calls nothing"
 }
 
 // travSoleDef: e itself, or — when e is a local variable that is assigned exactly once in
@@ -1483,7 +1531,7 @@ func (r *travRun) decide(u *travUnit, absorb map[string]string, loopPred map[str
 					continue
 				}
 				if u.shapeTest != "" {
-					infos = append(infos, fmt.Sprintf("%s.%s not inspected: the method is a shape test (`return %s`), not a traversal", s.Short(), f.Name, u.shapeTest))
+					infos = append(infos, fmt.Sprintf("%s.%s not inspected: the method is an accessor of the node (%s), not a traversal", s.Short(), f.Name, u.shapeTest))
 					continue
 				}
 				if u.rejects && u.role != rolePrint && u.role != rolePredicate {
